@@ -27,7 +27,7 @@ static void gen(mvsim_rng *r, long *p, int tier) {
   p[T_MODE] = mvh_range(r, 0, 2);
   p[T_NCALLS] = mvh_range(r, 1, tier ? 8 : 4);
   p[T_NSIB] = mvh_range(r, 0, 3);
-  p[T_DURCLASS] = mvh_range(r, 0, 5);
+  p[T_DURCLASS] = mvh_range(r, 0, 7);
   p[T_HOLD] = mvh_range(r, 0, 12);
 }
 static void *sibling(void *a) {
@@ -37,7 +37,11 @@ static void *sibling(void *a) {
 /* duration of call i (nanoseconds); classes from zero to seconds, with boundary nanosecond fields */
 static uint64_t duration(long i) {
   uint64_t h = wl_mix(P[Q_SEED], 40 + i);
-  switch ((P[T_DURCLASS] + i) % 6) {
+  /* at most one decades-long wait per run, and it is the last call (the 64-bit nanosecond clock would overflow otherwise) */
+  switch (i == P[T_NCALLS] - 1 ? P[T_DURCLASS] % 8 : (P[T_DURCLASS] + i) % 6) {
+    /* very long waits (decades): the virtual clock makes them cheap */
+    case 6: return NS * (2147483646ULL + h % 5);                 /* around 2^31 seconds */
+    case 7: return (h & 1) ? NS * 4294967295ULL : NS * 3153600000ULL + (h >> 4) % NS;   /* UINT_MAX s, 100 years */
     case 0: return 0;
     case 1: return 1 + h % 3;
     case 2: return 999999999ULL - h % 2;
@@ -64,11 +68,11 @@ static void do_sleep(long i) {
     int rc = myth_nanosleep(&rq, 0);
     MVH_CHECK(rc == 0, "C20-RC", "myth_nanosleep({%ld,%ld}) returned %d", (long)rq.tv_sec, rq.tv_nsec, rc);
   } else if (api == 1) {
-    uint64_t us = d / 1000; d = us * 1000;
+    uint64_t us = d / 1000; if (us > 4000000000ULL) us = 4000000000ULL; d = us * 1000;
     int rc = myth_usleep((useconds_t)us);
     MVH_CHECK(rc == 0, "C20-RC", "myth_usleep(%llu) returned %d", (unsigned long long)us, rc);
   } else {
-    uint64_t s = d / NS; if (s > 3) s = 3; d = s * NS;
+    uint64_t s = d / NS; if (s > 3 && s < 1000000) s = 3; d = s * NS;
     unsigned rc = myth_sleep((unsigned)s);
     MVH_CHECK(rc == 0, "C20-RC", "myth_sleep(%llu) returned %u", (unsigned long long)s, rc);
   }
@@ -155,7 +159,7 @@ static void run(const long *p, mvsim_runcfg *cfg, mvsim_runstats *st) {
   for (long i = 0; i < p[T_NCALLS]; i++) if (duration(i) > maxd) maxd = duration(i);
   uint64_t div = 5 + wl_mix(p[Q_SEED], 3) % 300;
   cfg->clk_read_ns = maxd / div + 1;
-  cfg->clk_jump_ns = maxd * 3 + 1;
+  cfg->clk_jump_ns = maxd > 1000000000000ULL ? maxd / 2 : maxd * 3 + 1;
   cfg->budget1 += 200000; cfg->budget2 += 2000000;
   wl_begin(cfg, p[Q_NWORKERS], 32, p[Q_QSIZE], (int)p[Q_PFIRST]);
   wl_set_probe_cb(timed_probe_cb);
